@@ -69,7 +69,13 @@ func c12World() *ref.World {
 }
 
 // c12Behaviour runs instances of lib's KB on the fixed worlds and orders, returning a canonical trace.
-func c12Behaviour(lib *ast.KnowledgeLibrary, prog *hx.Program, name, ver string, orders []int) (string, error) {
+func c12Behaviour(lib *ast.KnowledgeLibrary, prog *hx.Program, name, ver string, orders []int) (out string, rerr error) {
+	defer func() {
+		if r := recover(); r != nil {
+			// NewKnowledgeBaseInstance / Fetch on a damaged knowledge base: part of the observed behaviour
+			out, rerr = "", fmt.Errorf("PANIC while instantiating or running the knowledge base: %v", r)
+		}
+	}()
 	var b strings.Builder
 	for _, o := range orders {
 		kb, err := lib.NewKnowledgeBaseInstance(name, ver)
